@@ -41,3 +41,14 @@ G2 = [
 ]
 G2_SINGLE = [l for l in G2 if l != T(["U", "u1", "b"])]   # no multi-line group
 G2_CORE = [G2[i] for i in (0, 1, 3, 4, 7, 8, 9, 10, 11, 13, 14)]
+
+
+# non-initial start states ("@full"): everything of a universe that can be
+# loaded together without an operation the properties leave open (a second
+# link on the same ends, the second line of a multi-line group)
+G1_FULL = [G1[i] for i in range(len(G1)) if i not in (5, 6)]
+G2_FULL = [G2[i] for i in range(len(G2)) if i != 15]
+
+
+def full_prefix(version):
+  return [("add", l) for l in (G1_FULL if version == "gfa1" else G2_FULL)]
